@@ -40,6 +40,20 @@ def check(ctx):
     ctx.rule("T8-atomic", "no path from a mutation (index write or remote attribute write) to a raise")
     ctx.rule("T6-add-remove", "add checks and inserts all three keys; remove deletes all three")
     ctx.rule("T6-rekey", "move/rename/reha: own attribute, own index, same position, new key checked against index and local")
+    ctx.rule("T4-index-identity", "the index containers (.remotes/.uidRemotes/.nameRemotes/.haRemotes) are bound once, in __init__: "
+             ".remotes and .uidRemotes are two names of one odict and callers may hold the containers they passed in")
+    from ..rules import attr_writers, func_qual_of
+    nb = 0
+    for attr in ("remotes", "uidRemotes", "nameRemotes", "haRemotes"):
+        for node, kind in attr_writers(ctx.repo, attr, include_mutating_calls=False):
+            q = func_qual_of(ctx.repo, node)
+            if "/aio/proto/stacking.py" not in q or kind != "assign":
+                continue
+            nb += 1
+            ctx.check(q.endswith("RemoteStack.__init__"), "T4-index-identity", node, "self.%s rebound in %s" % (attr, q.split(":")[1]),
+                      "rebinding one index (e.g. to a fresh odict to 'clear' it) detaches it from its alias .uidRemotes / from the "
+                      "container the stack was given: later adds land in some indexes and not in others")
+    ctx.floor("T4-index-identity:bindings", nb, 3)
     R = ctx.cls("stacking", "RemoteStack")
     views = {}
     for name in ("addRemote", "moveRemote", "renameRemote", "rehaRemote", "removeRemote"):
